@@ -556,6 +556,11 @@ def run(plan, k):
                 m_started_at = m_last_act = None
                 m_errors = 0
                 m_true_ticks = 0
+            # whichever call performed it, leaving NASCENT is the start of the lifecycle: the time limits run from here
+            if before_phase == "NASCENT" and after != "NASCENT" and m_started_at is None:
+                m_started_at = now
+                if m_last_act is None:
+                    m_last_act = now
             m_phase = after
             if name == "reset":
                 m_phase = after
